@@ -533,7 +533,7 @@ class Interp:
         if isinstance(it, VSeq):
             # index ghost
             ordinal = self.loop_ordinals[id(node)]
-            self.emit(st, "for.iter", node, seq=it, ordinal=ordinal, src=ast.unparse(node.iter))
+            self.emit(st, "for.iter", node, seq=it, ordinal=ordinal, src=ast.unparse(node.iter), var=node.target.id if isinstance(node.target, ast.Name) else None)
             idx_name = f"$i{ordinal}"
             st.env[idx_name] = VInt(0)
             seq = it
@@ -674,7 +674,7 @@ class Interp:
             if v.items:
                 k = v.items[0].kind
             else:
-                k = st.ghost.get("list_elem_kind", {}).get(hint, "val")
+                k = st.ghost.get("list_elem_kind", {}).get(hint) or st.ghost.get("list_elem_kind", {}).get("*", "val")
             try:
                 return eng.fresh(st, "seq:" + k, hint)
             except KeyError:
@@ -1131,6 +1131,47 @@ class Interp:
             if name not in env:
                 raise Unsupported(f"{self.site(node)}: missing argument {name} for {fi.key}")
         return env
+
+    def target_key(self, st, target, recv=None) -> str:
+        """name of a mutated list by ROLE, independent of local variable names:
+        'Pool._connections' (heap key of the attribute), 'H2._events[]' (item of a dict field),
+        'local' (a local variable)"""
+        loc = getattr(recv, "loc", None)
+        if loc is not None and loc[0] == "heapdict":
+            return loc[1].key + "[]"
+        if isinstance(target, ast.Attribute):
+            try:
+                obj = self.eval(st, target.value)
+            except Exception:
+                obj = None
+            if isinstance(obj, VRef):
+                fk = self.eng.field_kind(obj.cls, target.attr)
+                if fk is not None:
+                    return fk[0]
+            return "attr:" + target.attr
+        if isinstance(target, ast.Name):
+            return "local"
+        return "expr"
+
+    def loop_node(self, ordinal):
+        for n in ast.walk(self.fi.node):
+            if isinstance(n, (ast.While, ast.For, ast.AsyncFor)) and self.loop_ordinals.get(id(n)) == ordinal:
+                return n
+        return None
+
+    def loop_var(self, st, ordinal):
+        """current value of the loop variable of `for` loop number `ordinal` (by position, not by name)"""
+        n = self.loop_node(ordinal)
+        if n is not None and isinstance(n, (ast.For, ast.AsyncFor)) and isinstance(n.target, ast.Name):
+            return st.env.get(n.target.id)
+        return None
+
+    def loop_test_names(self, ordinal):
+        """names of local variables compared in the test of `while` loop number `ordinal`"""
+        n = self.loop_node(ordinal)
+        if n is None or not isinstance(n, ast.While):
+            return []
+        return [x.id for x in ast.walk(n.test) if isinstance(x, ast.Name)]
 
     # ------------------------------------------------------------------ events
     def emit(self, st, name: str, node=None, **data) -> Event:
